@@ -5,7 +5,7 @@ aggregate nodes, one invisible aggregate target), an opaque source table and opa
 the events of each path, not over statement shapes."""
 from __future__ import annotations
 
-from ..symex import Sym, T, SList, Engine, Raise, show, contains, early_exits
+from ..symex import Sym, T, SList, Engine, Raise, show, contains, early_exits, gname
 from ..loader import AnalysisError, loc
 from ..report import RuleResult
 from .sx_exec import loop_events, aliases_of, GATE_CASES, _is_elem_of
@@ -565,4 +565,121 @@ def rule_sortskel(P, deep=False) -> RuleResult:
     if len(res.findings) == n0:
         res.ok({'function': fi.fq, 'order_specs': [str(s) for s in specs], 'criterion': 'stable passes, last pass most significant, equal the ORDER BY list',
                 'key_function': 'nullitemgetter'})
+    return res
+
+
+# ----------------------------------------------------------------------
+# R-ALLOCATOR (C02): every aggregate node gets a slot of its own in every group's store
+
+def rule_allocator(P) -> RuleResult:
+    """The Allocator on terms: n allocate() calls hand out n different handles, each a valid index of every store create_store() makes
+    afterwards, and each store is a new list of that size filled with None.  (R-AGGPROTO decides that every aggregate node is given
+    one handle before the scan and that every group gets a store; this rule decides that the handles do not collide.)"""
+    res = RuleResult('R-ALLOCATOR')
+    res.exhaustive = True
+    al = P.cls(QX, 'Allocator')
+    init, alloc, create = (al.methods.get(m) for m in ('__init__', 'allocate', 'create_store'))
+    if not (init and alloc and create):
+        raise AnalysisError('anchor vanished: Allocator.__init__ / allocate / create_store')
+    A = Sym('ALLOCATOR')
+    for n in (0, 1, 3):
+        heap = {}
+        for p in Engine(P).paths(init, {'self': A}):
+            heap = dict(p.heap)
+        handles = []
+        ok = True
+        for i in range(n):
+            def on_attr(base, attr, ex, _h=heap):
+                v = _h.get(T('attr', (base, attr)))
+                return v if v is not None else NotImplemented
+            ps = Engine(P, on_attr=on_attr).paths(alloc, {'self': A})
+            if len(ps) != 1 or ps[0].decisions or ps[0].outcome != 'return':
+                raise AnalysisError(f'{alloc.fq}: not a straight-line computation on terms')
+            handles.append(ps[0].value)
+            heap.update(ps[0].heap)
+
+        stores = []
+        shared = False
+        heaps = [heap]
+        for _ in range(2):
+            nxt = []
+            for h_ in heaps[:4]:
+                def on_attr2(base, attr, ex, _h=h_):
+                    v = _h.get(T('attr', (base, attr)))
+                    return v if v is not None else NotImplemented
+                for p in Engine(P, on_attr=on_attr2).paths(create, {'self': A}):
+                    if p.outcome != 'return':
+                        continue
+                    if any(isinstance(p.value, SList) and isinstance(s0, SList) and s0.id == p.value.id for s0 in stores):
+                        shared = True
+                    stores.append(p.value)
+                    nxt.append({**h_, **p.heap})
+            heaps = nxt
+        if not stores:
+            raise AnalysisError(f'{create.fq}: no returning path on terms')
+        concrete = all(type(h) is int for h in handles)
+        if not concrete:
+            raise AnalysisError(f'{alloc.fq}: handles are not concrete on terms: {[show(h) for h in handles]}')
+        if len(set(handles)) != len(handles):
+            ok = False
+            res.fail(alloc.fq, 'allocator:collision', f'{n} allocate() calls hand out the handles {handles}: two aggregate nodes share a slot, '
+                     f'so one aggregate overwrites the other in every group', loc(alloc))
+        for s_ in stores:
+            items = s_.items if isinstance(s_, SList) and not s_.opaque_tail else None
+            if items is None and isinstance(s_, T) and s_.op == 'attr' and s_.args[0] is A:
+                shared = True
+                continue
+            if items is None:
+                raise AnalysisError(f'{create.fq}: the store is not a concrete list on terms: {show(s_)[:60]}')
+            if any(not (0 <= h < len(items)) for h in handles):
+                ok = False
+                res.fail(create.fq, 'allocator:size', f'after {n} allocations create_store() makes a store of {len(items)} slots; the handles '
+                         f'{handles} must all index it', loc(create))
+            elif any(x is not None for x in items):
+                ok = False
+                res.fail(create.fq, 'allocator:fill', f'a new store starts with every slot NULL; found {[show(x) for x in items]}', loc(create))
+        if shared:
+            ok = False
+            res.fail(create.fq, 'allocator:shared-store', 'create_store() returns the same list object every time: all groups share one store', loc(create))
+        if ok:
+            res.ok({'allocations': n, 'handles': handles, 'store_slots': n})
+    return res
+
+
+# ----------------------------------------------------------------------
+# R-QUERYEXEC (C07, C03): a compiled SELECT is executed by execute_select and by nothing else
+
+def rule_queryexec(P) -> RuleResult:
+    """execute_query on terms for a compiled SELECT (whatever its LIMIT, DISTINCT, ORDER BY ... fields hold): on every path the answer is
+    the (description, rows) pair execute_select(query) returned, unchanged - there is no second place that builds a description or a row
+    list for a SELECT, so what R-PIPELINE / R-HIDDEN decide about execute_select is what the caller gets."""
+    res = RuleResult('R-QUERYEXEC')
+    res.exhaustive = True
+    fi = P.func(QX, 'execute_query')
+    QUERY = Sym('COMPILED_SELECT')
+    RESULT = Sym('RESULT_OF_EXECUTE_SELECT')
+
+    def on_call(fname, fval, recv, args, kwargs, ex, node):
+        f = str(fname).split('.')[-1]
+        if f == 'execute_select':
+            return RESULT if tuple(args) == (QUERY,) and not kwargs else T('call', ('execute_select', tuple(args), tuple(kwargs)))
+        return NotImplemented
+    def on_isinstance(v, c, ex):
+        if v == QUERY:
+            names = list(c.args) if isinstance(c, T) and c.op == 'tuple' else [c]
+            return any(gname(x).split('.')[-1] == 'EvalQuery' for x in names)
+        return NotImplemented
+    n = 0
+    for p in Engine(P, on_call=on_call, on_isinstance=on_isinstance).paths(fi, {fi.params[0]: QUERY}):
+        n += 1
+        tests = [show(t)[:60] for t, _ in p.decisions]
+        if p.outcome == 'return' and p.value == RESULT:
+            res.ok({'function': fi.fq, 'compiled_select': 'returns execute_select(query) unchanged', 'conditions_on_the_path': tests})
+        else:
+            res.fail(fi.fq, 'queryexec:bypass', f'for a compiled SELECT{" with " + " and ".join(tests) if tests else ""} execute_query '
+                     f'{"returns `" + show(p.value)[:100] + "`" if p.outcome == "return" else "raises " + str(p.value[0])} instead of what '
+                     f'execute_select(query) returns: a second place builds the description or the rows, and nothing ties it to the visible '
+                     f'targets, their names and their order', loc(fi))
+    if n == 0:
+        raise AnalysisError(f'{fi.fq}: no path on terms')
     return res
